@@ -294,7 +294,7 @@ def run(rep, for_c07=False):
             maxq = 1 if quick else 2
             if for_c07:
                 kinds, maxq = ["CER", "DWR", "DPR", "REQ", "CEA"], 2
-            res, _ = tlc.run("Psm", cfg(role, kinds, [1, 2] if for_c07 else [1], maxq, props=for_c07, valid_only=for_c07, maxs=2), wd=wd, workers=8,
+            res, _ = tlc.run("Psm", cfg(role, kinds, [1, 2, 3, 4] if for_c07 else [1], maxq, props=for_c07, valid_only=for_c07, maxs=2), wd=wd, workers=8,
                              args=["-dump", "dot,actionlabels", dot], timeout=2400)
             tlc.must_ok(res, f"Psm dump {role}")
             rep.tlc(f"Psm dump {role}", res)
